@@ -40,7 +40,7 @@ def rule_gate(ctx):
         raise Unrecognised('gate', 'expected one verify call in the block fetch, found %d' % len(vcalls))
     v = vcalls[0]
     # Ok(Some(..)) return block
-    okb = [d[1] for d in g.defs().get(0, []) if d[0] == 'assign' and canon(g.rvalue_expr(d[3])).startswith('Result::Ok{0: Option::Some')]
+    okb = [d[1] for d in g.ret_defs() if d[0] == 'assign' and canon(g.rvalue_expr(d[3])).startswith('Result::Ok{0: Option::Some')]
     if len(okb) != 1:
         raise Unrecognised('gate', 'expected one Ok(Some(block)) return')
     R = okb[0]
@@ -73,7 +73,7 @@ def rule_gate(ctx):
     ctx.check('gate', 'verify-args', a[0] == 'self' and a[1].startswith('read_block(') and a[1].endswith(')?') and a[2] == 'a2', v,
               'verify(self, the block just read, height)')
     # verify happens on the block that is returned
-    ret = canon(g.rvalue_expr([d for d in g.defs()[0] if d[1] == R][0][3]))
+    ret = canon(g.rvalue_expr([d for d in g.ret_defs() if d[1] == R][0][3]))
     ctx.check('gate', 'verified-block-is-returned', a[1] in ret, v, 'returned block = verified block')
     # flag provenance
     st = prog.one('ChainStorage::new')
@@ -93,7 +93,7 @@ def rule_polarity(ctx):
     vm = prog.one('Block::verify_merkle_root')
     ctx.touch(vm)
     rets = {}
-    for d in vm.defs().get(0, []):
+    for d in vm.ret_defs():
         if d[0] == 'assign':
             c = canon(vm.rvalue_expr(d[3]))
             rets['Ok' if c.startswith('Result::Ok') else 'Err'] = util.guards_at(vm, d[1])
@@ -103,29 +103,28 @@ def rule_polarity(ctx):
     ctx.touch(v)
     errs = []
     oks = []
-    for d in v.defs().get(0, []):
+    for d in v.ret_defs():
         if d[0] == 'assign':
             c = canon(v.rvalue_expr(d[3]))
             (oks if c.startswith('Result::Ok') else errs).append((util.guards_at(v, d[1]), d[1]))
     mk = 'verify_merkle_root(a2) is Ok'
     gen = sorted(['a2.header.hash != self.coin.genesis_hash', 'a3 <= 0', mk])
-    prev = sorted(['a2.header.value.prev_hash != expect(get(self.chain_index, (a3 - 1)), "unable to fetch prev block in chain index").block_hash', '0 < a3', mk])
+    prev = sorted(['a2.header.value.prev_hash != get(self.chain_index, (a3 - 1))?.block_hash', '0 < a3', mk])
     eg = [e for e in errs if e[0] == gen]
     ep = [e for e in errs if e[0] == prev]
     ctx.check('polarity', 'genesis:err-on-different-at-height-0', len(eg) == 1, v, 'Err(genesis mismatch) under %s' % [e[0] for e in errs if 'a3 <= 0' in e[0]])
     ctx.check('polarity', 'prev:err-on-different-at-height>0', len(ep) == 1, v, 'Err(prev mismatch) under %s' % [e[0] for e in errs if '0 < a3' in e[0]])
     ctx.check('polarity', 'no-other-error', len(errs) == 2, v, '%d explicit Err returns' % len(errs))
-    # Ok(()) reachable only through the equal edges: the Ok block's predecessors' facts
-    if len(oks) == 1:
-        ob = oks[0][1]
-        conds = sorted(tuple(sorted(util.crel(x) for x in util.facts_to_rels(v.facts_on_edge(p, ob)) if 'le(Level' not in util.crel(x))) for p in v.pred[ob])
+    # Ok(()) is reached only through the equal edges: the guard sets of every path into an Ok(()) return
+    if oks:
+        conds = sorted(set(tuple(sorted(x for x in g if 'Level' not in x)) for o in oks for g in util.path_guard_sets(v, o[1])))
         exp = sorted([tuple(sorted(('a2.header.hash == self.coin.genesis_hash', 'a3 <= 0', mk))),
-                      tuple(sorted(('a2.header.value.prev_hash == expect(get(self.chain_index, (a3 - 1)), "unable to fetch prev block in chain index").block_hash', '0 < a3', mk)))])
-        ctx.check('polarity', 'ok-only-on-equal-edges', conds == exp, (v, ob), 'Ok(()) reached on %s' % conds)
+                      tuple(sorted(('a2.header.value.prev_hash == get(self.chain_index, (a3 - 1))?.block_hash', '0 < a3', mk)))])
+        ctx.check('polarity', 'ok-only-on-equal-edges', conds == exp, (v, oks[0][1]), 'Ok(()) reached on %s' % conds)
     else:
-        ctx.violation('polarity', 'ok-returns=%d' % len(oks), v, 'expected one Ok(()) return')
+        ctx.violation('polarity', 'ok-returns=0', v, 'no Ok(()) return')
     # merkle check is `?`-propagated first
-    fr = [d for d in v.defs().get(0, []) if d[0] == 'call' and mir.method_name(d[2].name) == 'from_residual']
+    fr = [d for d in v.ret_defs() if d[0] == 'call' and mir.method_name(d[2].name) == 'from_residual']
     ctx.check('polarity', 'merkle-result-propagated', len(fr) == 1 and util.guards_at(v, fr[0][1]) == ['verify_merkle_root(a2) is Err'], v, '`?` on verify_merkle_root')
 
 
@@ -133,24 +132,26 @@ def rule_inputs(ctx):
     prog = ctx.prog
     cm = prog.one('Block::compute_merkle_root')
     ctx.touch(cm)
-    ctx.check('inputs', 'leaves=all-txs-forward', canon(cm.ret_expr()) == 'merkle_root(collect(map(self.txs, closure:{closure#0})))', cm, canon(cm.ret_expr()))
-    cl = util.only_closure(prog, cm)
-    ctx.touch(cl)
-    ctx.check('inputs', 'leaf=tx.hash', canon(cl.ret_expr()) == 'a2.hash', cl, 'closure returns %s' % canon(cl.ret_expr()))
+    # leaves = the hash of every tx, in order: either txs.iter().map(|tx| tx.hash).collect() or a push loop
+    mr0 = [c for c in cm.calls if mir.method_name(c.name) == 'merkle_root']
+    se = util.sequence_elements(prog, cm, mr0[0].args[0]) if len(mr0) == 1 else None
+    ctx.check('inputs', 'leaves=all-txs-forward', se is not None and se[0] == 'self.txs' and canon(cm.ret_expr()).startswith('merkle_root('), cm,
+              'leaves are built from %s' % (se[0] if se else canon(cm.ret_expr())))
+    ctx.check('inputs', 'leaf=tx.hash', se is not None and se[1] == 'each(self.txs).hash', cm, 'each leaf is %s' % (se[1] if se else '?'))
     bad = [c for c in cm.calls if mir.method_name(c.name) in ('rev', 'skip', 'take', 'filter', 'step_by', 'par_iter')]
     ctx.check('inputs', 'no-reordering-adaptor', not bad, cm, 'adaptors: %s' % [mir.method_name(c.name) for c in bad])
     mr = [c for c in cm.calls if mir.method_name(c.name) == 'merkle_root']
     ctx.check('inputs', 'merkle-of-utils', len(mr) == 1 and mr[0].local, cm, 'utils::merkle_root')
     # block_hash of the index record comes from the LevelDB key (C03.key) and Hashed.hash from double_sha256 (C01.ser)
     r = prog.one('BlockIndexRecord::from')
-    ctx.check('inputs', 'index-hash-from-leveldb-key', 'block_hash: expect(try_into(a1), "leveldb: malformed blockhash")' in canon(r.ret_expr()), r, 'record hash = key bytes')
+    ctx.check('inputs', 'index-hash-from-leveldb-key', 'block_hash: try_into(a1)?' in canon(r.ret_expr()), r, 'record hash = key bytes')
     # genesis table
     seen = {}
     for b in prog.trait_method_impls('blockchain::parser::types::Coin', 'genesis'):
         coin = b.impl_self.split('::')[-1]
         ctx.touch(b)
         c = canon(b.ret_expr())
-        m = re.match(r'^unwrap\(from_str\("([0-9a-f]{64})"\)\)$', c)
+        m = re.match(r'^from_str\("([0-9a-f]{64})"\)\?$', c)
         h = m.group(1) if m else None
         seen[coin] = h
         fs = [x for x in b.calls if mir.method_name(x.name) == 'from_str']
@@ -166,7 +167,7 @@ def rule_inputs(ctx):
     fs = prog.one('<blockchain::parser::types::CoinType as std::str::FromStr>::from_str')
     ctx.touch(fs)
     pairs = {}
-    for d in fs.defs().get(0, []):
+    for d in fs.ret_defs():
         if d[0] == 'assign':
             c = canon(fs.rvalue_expr(d[3]))
             m = re.match(r'^Result::Ok\{0: (\w+)\{\}\}$', c.replace('::' + c.split('::')[-1], '') if False else c)
@@ -250,7 +251,7 @@ def rule_merkle(ctx):
         arg = _cur(canon(m.op_expr(pu[0].args[1])))
         g = sorted(_cur(x) for x in util.guards_at(m, pu[0].bb))
         tgt = _cur(canon(m.op_expr(pu[0].args[0])))
-        la = 'unwrap(last(CUR))[RangeFull::RangeFull{}]'
+        la = 'last(CUR)?[RangeFull::RangeFull{}]'
         lb = 'remainder(chunks_exact(CUR, 2))[0][RangeFull::RangeFull{}]'
         if arg == 'hash(concat([%s, %s]))' % (la, la):
             okp = g == sorted(['(len(CUR) % 2) == 1', '1 < len(CUR)'])
@@ -260,8 +261,8 @@ def rule_merkle(ctx):
     ctx.check('merkle', 'odd-level-duplicates-last', okp, pu[0] if pu else m, 'odd level: push(sha256d(last || last)) onto the new level',
               bad_detail='odd levels are not completed with sha256d(last || last): %s under %s' % ([canon(m.op_expr(c.args[1]))[:120] for c in pu], [util.guards_at(m, c.bb)[:2] for c in pu]))
     # loop condition and result
-    rets = [(_cur(canon(m.rvalue_expr(d[3])) if d[0] == 'assign' else canon(m.call_expr(d[2]))), [_cur(x) for x in util.guards_at(m, d[1])]) for d in m.defs().get(0, [])]
-    okr = len(rets) == 1 and rets[0][0].startswith('expect(first(CUR)') and rets[0][1] == ['len(CUR) <= 1']
+    rets = [(_cur(canon(m.rvalue_expr(d[3])) if d[0] == 'assign' else canon(m.call_expr(d[2]))), [_cur(x) for x in util.guards_at(m, d[1])]) for d in m.ret_defs()]
+    okr = len(rets) == 1 and rets[0][0] == 'first(CUR)?' and rets[0][1] == ['len(CUR) <= 1']
     ctx.check('merkle', 'result=single-remaining-hash', okr, m, 'returns first(hashes) once len <= 1')
     ch = [c for c in m.calls if mir.method_name(c.name) in ('chunks', 'chunks_exact')]
     ctx.check('merkle', 'chunks-of-2-over-current-level', len(ch) == 1 and [_cur(canon(a)) for a in m.arg_exprs(ch[0])] == ['CUR', '2'] and '1 < len(CUR)' in [_cur(x) for x in util.guards_at(m, ch[0].bb)], m, 'chunks(2) while len > 1')
